@@ -610,3 +610,61 @@ MA('C19', 'circular frame mirrored', DETF, 'CircularDetector.__init__',
    'self.__rotation_matrix = np.array([[cos, -sin], [sin, cos]])',
    'self.__rotation_matrix = np.array([[cos, sin], [sin, cos]])',
    'CircularDetector.__init__')
+
+# ---- C18 -------------------------------------------------------------------
+FTU = 'odl/trafos/util/ft_utils.py'
+FOURF = 'odl/trafos/fourier.py'
+MA('C18', 'halfcomplex rmax arms swapped', FTU, 'reciprocal_grid',
+   'if last_odd and last_shifted:...',
+   'if last_odd and last_shifted:\n    rmax[axes[-1]] = half_rstride\n'
+   'elif not last_odd and (not last_shifted):\n    rmax[axes[-1]] = -half_rstride\n'
+   'else:\n    rmax[axes[-1]] = 0', 'reciprocal_grid')
+MA('C18', 'inverse DFT pyfftw forgets 1/N', FOURF,
+   'DiscreteFourierTransformInverse._call_pyfftw',
+   "if self.sign == '-':...", 'pass', 'DiscreteFourierTransformInverse')
+MA('C18', 'FT inverse keeps sign', FOURF, 'FourierTransform.inverse',
+   "sign = '+' if self.sign == '-' else '-'", 'sign = self.sign',
+   'FourierTransform.inverse')
+MA('C18', 'postprocess fmin unshifted', FTU, 'dft_postprocess_data',
+   'fmin = -0.5 if shift else -0.5 + 1.0 / (2 * len_orig)',
+   'fmin = -0.5 if shift else -0.5 + 1.0 / len_orig',
+   'dft_postprocess_data')
+MA('C18', 'preprocess phase factor', FTU,
+   'dft_preprocess_data._onedim_arr',
+   'factor *= -imag * np.pi * (1 - 1.0 / length)',
+   'factor *= -imag * np.pi * (1 - 2.0 / length)', 'dft_preprocess_data')
+MA('C18', 'unshifted rmin', FTU, 'reciprocal_grid',
+   'rmin[not_shifted] = (-1.0 + 1.0 / shape[not_shifted]) * np.pi / stride[not_shifted]',
+   'rmin[not_shifted] = -np.pi / stride[not_shifted]', 'reciprocal_grid')
+MA('C18', 'DFT numpy sign plus unnormalised twice', FOURF,
+   'DiscreteFourierTransform._call_numpy',
+   'return np.prod(np.take(self.domain.shape, self.axes)) * np.fft.ifftn(x, axes=self.axes)',
+   'return np.fft.ifftn(x, axes=self.axes)', 'DiscreteFourierTransform')
+MA('C18', 'DFT inverse impl regression', FOURF,
+   'DiscreteFourierTransform.inverse',
+   'return DiscreteFourierTransformInverse(...',
+   'return DiscreteFourierTransformInverse(domain=self.range, range=self.domain, axes=self.axes, halfcomplex=self.halfcomplex, sign=sign)',
+   'DiscreteFourierTransform.inverse')
+MA('C18', 'planner scratch regression',
+   'odl/trafos/backends/pyfftw_bindings.py', 'pyfftw_call',
+   'if must_copy_array_in:...',
+   'if must_copy_array_in and not array_in_copied:\n    plan_arr_in = np.empty_like(array_in)\n'
+   "    flags = [_flag_odl_to_pyfftw(planning_effort), 'FFTW_DESTROY_INPUT']\n"
+   'else:\n    plan_arr_in = array_in\n    flags = [_flag_odl_to_pyfftw(planning_effort)]',
+   'pyfftw_call')
+MA('C18', 'wavelet inverse drops nlevels',
+   'odl/trafos/wavelet.py', 'WaveletTransform.inverse',
+   'return WaveletTransformInverse(...',
+   'return WaveletTransformInverse(range=self.domain, wavelet=self.pywt_wavelet, pad_mode=self.pad_mode, pad_const=self.pad_const, impl=self.impl, axes=self.axes)',
+   'WaveletTransform.inverse')
+MA('C18', 'realspace grid odd parity shape', FTU, 'realspace_grid',
+   'irshape[axes[-1]] = 2 * rshape[axes[-1]] - 1',
+   'irshape[axes[-1]] = 2 * rshape[axes[-1]]', 'realspace_grid')
+MA('C18', 'FT inverse numpy divides for wrong sign', FOURF,
+   'FourierTransformInverse._call_numpy',
+   'out /= np.prod(np.take(self.domain.shape, self.axes))', 'pass',
+   'FourierTransformInverse')
+MA('C03', 'halfcomplex inverse DFT copy regression', FOURF,
+   'DiscreteFourierTransformInverse._call_pyfftw',
+   'if self.halfcomplex and x.ndim > 1:...', 'pass',
+   'DiscreteFourierTransformInverse._call_pyfftw')
